@@ -48,7 +48,7 @@ theorem ensemble_result (step : W → S → W) (detect : W → M) (w0 : W) (p : 
     omega
   rw [msd_eq step detect w0 p first tl (hp.trans hf), hnot]
   simp only [Bool.false_eq_true, if_false]
-  rw [configLoop_spec step detect p ent ps first tl w0 hp hf hs p.configs w0 0 hb]
+  rw [configLoop_spec step detect p ent ps first tl w0 hp hf hs p.configs w0 0 (fun _ => rfl) hb]
   refine ⟨_, rfl, fun c hc => ⟨?_, ?_⟩⟩
   · intro he
     apply get_table
